@@ -177,8 +177,25 @@ theorem bcPass_ok {P : Problem} (hP : ProbOk P) (hW : WFP P) {s s' : State} {st 
   have r := bcLoopG_inv pickProp_ok hP hW _ none _ st s' (Inv_stats hI _) h
   exact ⟨r.below, r.lenT, r.inv, r.empty, r.le, r.bound, r.unbound⟩
 
-/-- SOLVE_ONE (plain bound consistency): the invariants survive, and a returned vector is a solution -/
-theorem solveOne_sound {P : Problem} (hP : ProbOk P) (hW : WFP P) (cfg : Config) (hbc : cfg.cons = .bc) (hcost : CostOk cfg) :
+/-- what the search loop needs from the configured consistency algorithm -/
+structure ConsOk (P : Problem) (cfg : Config) : Prop where
+  pass : ∀ (s s' : State) (st : BcStatus), Pre P s → consPass P cfg s = .ok (st, s') →
+    s'.below = s.below ∧ s'.trig.length = P.props.length ∧
+    (st ≠ .inconsistent → Inv P s' ∧ AllFix P s' ∧ Box.le s'.top.doms s.top.doms) ∧
+    (st = .bound → s'.top.doms.isGround = true) ∧ (st = .unbound → s'.top.doms.isGround = false)
+
+/-- plain bound consistency provides it -/
+theorem consOk_bc {P : Problem} (hP : ProbOk P) (hW : WFP P) (cfg : Config) (hbc : cfg.cons = .bc) : ConsOk P cfg := by
+  constructor
+  intro s s' st hpre h
+  have hcp : consPass P cfg s = bcPass P s := by simp [consPass, hbc]
+  rw [hcp] at h
+  have pr := bcPass_ok hP hW hpre.inv h
+  exact ⟨pr.below, pr.lenT, fun hst => ⟨pr.inv hst, AllFix_of_pass pr hst, pr.le hst⟩, pr.bound, pr.unbound⟩
+
+/-- SOLVE_ONE: the invariants survive, and a returned vector is a solution — for any consistency
+    algorithm satisfying `ConsOk` -/
+theorem solveOne_sound' {P : Problem} (hP : ProbOk P) (cfg : Config) (hcons : ConsOk P cfg) (hcost : CostOk cfg) :
     ∀ (fuel : Nat) (s : State) (r : Option (List Int)) (s' : State), Pre P s →
       solveOne P cfg fuel s = .ok (r, s') →
       Post P s' ∧ ∀ sol, r = some sol → ∃ σ, SolW P σ ∧ sol = reported P σ
@@ -187,25 +204,24 @@ theorem solveOne_sound {P : Problem} (hP : ProbOk P) (hW : WFP P) (cfg : Config)
     simp only [solveOne] at h
     split at h
     · cases h
-    · have hcp : consPass P cfg s = bcPass P s := by simp [consPass, hbc]
-      rw [hcp] at h
-      cases hpass : bcPass P s with
+    · cases hpass : consPass P cfg s with
       | error e => rw [hpass] at h; simp at h
       | ok res =>
         obtain ⟨st, s1⟩ := res
         rw [hpass] at h
-        have pr := bcPass_ok hP hW hpre.inv hpass
-        have hstack1 : StackOk P s1.below := by rw [pr.below]; exact hpre.stack
+        obtain ⟨hbelow, hlenT, hinv, hbound, _⟩ := hcons.pass s s1 st hpre hpass
+        have hstack1 : StackOk P s1.below := by rw [hbelow]; exact hpre.stack
         cases st with
         | bound =>
           simp only at h
           injection h with h; injection h with h1 h2; subst h1; subst h2
-          refine ⟨⟨pr.lenT, hstack1⟩, fun sol hsol => ?_⟩
+          refine ⟨⟨hlenT, hstack1⟩, fun sol hsol => ?_⟩
           injection hsol with hsol; subst hsol
-          exact ⟨assignOf s1.top.doms,
-            solW_of_bound hP (pr.inv (by decide)) (AllFix_of_pass pr (by decide)) (pr.bound rfl), getSolution_eq P _⟩
+          have hi := hinv (by decide)
+          exact ⟨assignOf s1.top.doms, solW_of_bound hP hi.1 hi.2.1 (hbound rfl), getSolution_eq P _⟩
         | unbound =>
           simp only at h
+          have hi := hinv (by decide)
           split at h
           · cases h
           · cases hvh : runVarHeur cfg.varH cfg.varCosts cfg.decision s1.top.doms with
@@ -224,28 +240,31 @@ theorem solveOne_sound {P : Problem} (hP : ProbOk P) (hW : WFP P) (cfg : Config)
                   rw [hdh] at h
                   simp only at h
                   have hbok := runDomHeur_ok cfg.domH cfg.domCosts s1.top d hdl hub b hdh hcost
-                  have hpre3 := push_pre (pr.inv (by decide)) (AllFix_of_pass pr (by decide)) hstack1 hdl hbok
+                  have hpre3 := push_pre hi.1 hi.2.1 hstack1 hdl hbok
                     { (s1.push b).stats with choice := (s1.push b).stats.choice + 1,
                                              depth := max (s1.push b).stats.depth (s1.push b).below.length }
-                  exact solveOne_sound hP hW cfg hbc hcost fuel _ r s' hpre3 h
+                  exact solveOne_sound' hP cfg hcons hcost fuel _ r s' hpre3 h
         | inconsistent =>
           simp only at h
           cases hbt : backtrack P s1 with
           | none =>
             rw [hbt] at h
             injection h with h; injection h with h1 h2; subst h1; subst h2
-            exact ⟨⟨pr.lenT, hstack1⟩, fun sol hsol => by cases hsol⟩
+            exact ⟨⟨hlenT, hstack1⟩, fun sol hsol => by cases hsol⟩
           | some s2 =>
             rw [hbt] at h
             simp only at h
-            exact solveOne_sound hP hW cfg hbc hcost fuel s2 r s' (backtrack_pre ⟨pr.lenT, hstack1⟩ hbt) h
+            exact solveOne_sound' hP cfg hcons hcost fuel s2 r s' (backtrack_pre ⟨hlenT, hstack1⟩ hbt) h
 
-end Nucs
-
-namespace Nucs
+/-- SOLVE_ONE (plain bound consistency) -/
+theorem solveOne_sound {P : Problem} (hP : ProbOk P) (hW : WFP P) (cfg : Config) (hbc : cfg.cons = .bc) (hcost : CostOk cfg)
+    (fuel : Nat) (s : State) (r : Option (List Int)) (s' : State) (hpre : Pre P s)
+    (h : solveOne P cfg fuel s = .ok (r, s')) :
+    Post P s' ∧ ∀ sol, r = some sol → ∃ σ, SolW P σ ∧ sol = reported P σ :=
+  solveOne_sound' hP cfg (consOk_bc hP hW cfg hbc) hcost fuel s r s' hpre h
 
 /-- the `solve()` generator: the invariants survive and every yielded vector is a solution -/
-theorem solveAll_sound {P : Problem} (hP : ProbOk P) (hW : WFP P) (cfg : Config) (hbc : cfg.cons = .bc) (hcost : CostOk cfg)
+theorem solveAll_sound' {P : Problem} (hP : ProbOk P) (cfg : Config) (hcons : ConsOk P cfg) (hcost : CostOk cfg)
     (fuel1 : Nat) :
     ∀ (fuel limit : Nat) (s : State) (acc sols : List (List Int)) (s' : State), Pre P s →
       (∀ x ∈ acc, ∃ σ, SolW P σ ∧ x = reported P σ) →
@@ -263,7 +282,7 @@ theorem solveAll_sound {P : Problem} (hP : ProbOk P) (hW : WFP P) (cfg : Config)
     | ok res =>
       obtain ⟨r, s1⟩ := res
       rw [h1] at h
-      have hs := solveOne_sound hP hW cfg hbc hcost fuel1 s r s1 hpre h1
+      have hs := solveOne_sound' hP cfg hcons hcost fuel1 s r s1 hpre h1
       cases r with
       | none =>
         simp only at h
@@ -287,7 +306,7 @@ theorem solveAll_sound {P : Problem} (hP : ProbOk P) (hW : WFP P) (cfg : Config)
             intro x hx; exact hacc' x (List.mem_reverse.mp hx)
           | some s2 =>
             rw [hbt] at h
-            exact solveAll_sound hP hW cfg hbc hcost fuel1 fuel limit s2 _ sols s' (backtrack_pre hs.1 hbt) hacc' h
+            exact solveAll_sound' hP cfg hcons hcost fuel1 fuel limit s2 _ sols s' (backtrack_pre hs.1 hbt) hacc' h
 
 /-- the root state satisfies the precondition of the search -/
 theorem Pre_init (P : Problem) (hne : P.shr.Nonempty) (stats : Stats) : Pre P (State.init P stats) := by
@@ -356,7 +375,7 @@ theorem Pre_resetTighten {P : Problem} (s : State) (v : Nat) (hv : v < P.vars.le
       rw [hne', getB_replicate_true _ _ hq] at hdis; cases hdis
 
 /-- OPTIMIZE: the returned vector, if any, is a solution -/
-theorem optimize_sound {P : Problem} (hP : ProbOk P) (hW : WFP P) (cfg : Config) (hbc : cfg.cons = .bc) (hcost : CostOk cfg)
+theorem optimize_sound' {P : Problem} (hP : ProbOk P) (cfg : Config) (hcons : ConsOk P cfg) (hcost : CostOk cfg)
     (v : Nat) (hv : v < P.vars.length) (minimize : Bool) (fuel1 : Nat) :
     ∀ (fuel : Nat) (s : State) (best r : Option (List Int)) (s' : State), Pre P s →
       (∀ x, best = some x → ∃ σ, SolW P σ ∧ x = reported P σ) →
@@ -370,7 +389,7 @@ theorem optimize_sound {P : Problem} (hP : ProbOk P) (hW : WFP P) (cfg : Config)
     | ok res =>
       obtain ⟨r1, s1⟩ := res
       rw [h1] at h
-      have hs := solveOne_sound hP hW cfg hbc hcost fuel1 s r1 s1 hpre h1
+      have hs := solveOne_sound' hP cfg hcons hcost fuel1 s r1 s1 hpre h1
       cases r1 with
       | none =>
         simp only at h
@@ -385,7 +404,25 @@ theorem optimize_sound {P : Problem} (hP : ProbOk P) (hW : WFP P) (cfg : Config)
         · rename_i hne
           subst hsol
           have hpre2 := Pre_resetTighten s1 v hv minimize σ hσ.1 (by simpa using hne)
-          exact optimize_sound hP hW cfg hbc hcost v hv minimize fuel1 fuel _ _ r s' hpre2
+          exact optimize_sound' hP cfg hcons hcost v hv minimize fuel1 fuel _ _ r s' hpre2
             (fun x hx => by injection hx with hx; subst hx; exact ⟨σ, hσ, rfl⟩) h
+
+end Nucs
+
+namespace Nucs
+
+theorem solveAll_sound {P : Problem} (hP : ProbOk P) (hW : WFP P) (cfg : Config) (hbc : cfg.cons = .bc) (hcost : CostOk cfg)
+    (fuel1 fuel limit : Nat) (s : State) (acc sols : List (List Int)) (s' : State) (hpre : Pre P s)
+    (hacc : ∀ x ∈ acc, ∃ σ, SolW P σ ∧ x = reported P σ)
+    (h : solveAll P cfg fuel1 fuel limit s acc = .ok (sols, s')) :
+    ∀ x ∈ sols, ∃ σ, SolW P σ ∧ x = reported P σ :=
+  solveAll_sound' hP cfg (consOk_bc hP hW cfg hbc) hcost fuel1 fuel limit s acc sols s' hpre hacc h
+
+theorem optimize_sound {P : Problem} (hP : ProbOk P) (hW : WFP P) (cfg : Config) (hbc : cfg.cons = .bc) (hcost : CostOk cfg)
+    (v : Nat) (hv : v < P.vars.length) (minimize : Bool) (fuel1 fuel : Nat) (s : State) (best r : Option (List Int)) (s' : State)
+    (hpre : Pre P s) (hbest : ∀ x, best = some x → ∃ σ, SolW P σ ∧ x = reported P σ)
+    (h : optimize P cfg v minimize fuel1 fuel s best = .ok (r, s')) :
+    ∀ x, r = some x → ∃ σ, SolW P σ ∧ x = reported P σ :=
+  optimize_sound' hP cfg (consOk_bc hP hW cfg hbc) hcost v hv minimize fuel1 fuel s best r s' hpre hbest h
 
 end Nucs
